@@ -20,6 +20,17 @@ type hasher struct {
 	sb   strings.Builder
 	seen map[ptrKey]int
 	addr bool // include slice/map/pointer identity
+	skip map[reflect.Type]bool
+}
+
+// StringSkip is String but values of the given types are rendered as "<skipped>".
+func StringSkip(v interface{}, skip ...reflect.Type) string {
+	h := &hasher{seen: map[ptrKey]int{}, skip: map[reflect.Type]bool{}}
+	for _, t := range skip {
+		h.skip[t] = true
+	}
+	h.walk(reflect.ValueOf(v), 0)
+	return h.sb.String()
 }
 
 // String returns the canonical form of v (content only).
@@ -67,6 +78,10 @@ func (h *hasher) walk(v reflect.Value, depth int) {
 		return
 	}
 	t := v.Type()
+	if h.skip[t] {
+		h.sb.WriteString("<skipped>")
+		return
+	}
 	switch v.Kind() {
 	case reflect.Bool:
 		fmt.Fprintf(&h.sb, "%s(%v)", t, v.Bool())
@@ -154,9 +169,9 @@ func (h *hasher) walk(v reflect.Value, depth int) {
 		var ents []kv
 		it := v.MapRange()
 		for it.Next() {
-			hk := &hasher{seen: h.seen, addr: h.addr}
+			hk := &hasher{seen: h.seen, addr: h.addr, skip: h.skip}
 			hk.walk(it.Key(), depth+1)
-			hv := &hasher{seen: h.seen, addr: h.addr}
+			hv := &hasher{seen: h.seen, addr: h.addr, skip: h.skip}
 			hv.walk(it.Value(), depth+1)
 			ents = append(ents, kv{hk.sb.String(), hv.sb.String()})
 		}
